@@ -47,7 +47,8 @@ def plan(tier, prop):
                             "explicit_dict", "dict_reused", "no_options",
                             "mc_boot", "mc_boot_already_booted",
                             "mc_boot_failed", "max_size_image",
-                            "short_last_block", "send_error_reached_caller"],
+                            "short_last_block", "send_error_reached_caller",
+                            "deprecated_dimensions"],
         "knob_ranges": {"image_bytes": "512..32764 (word multiples) or "
                         "bundled scamp.boot", "boots": "1-5",
                         "boot_delay": [0.0, 0.01, 0.05],
@@ -348,10 +349,23 @@ class BootEngine(object):
                                               timeout=0.05,
                                               boot_port=self.boot_port)
             kwargs["post_boot_delay"] = 2.0
+            # the deprecated (and documented as ignored) machine dimensions
+            dims_pos, dims_kw = (), {}
+            how_dims = t.weighted([5, 1, 1])
+            if how_dims:
+                w.probe("deprecated_dimensions")
+                dims = (1 + t.draw(48), 1 + t.draw(48))
+                if how_dims == 1:
+                    dims_pos = dims
+                else:
+                    dims_kw = {"width": dims[0], "height": dims[1]}
+                w.ops[-1] += " [width,height=%r %s]" % (
+                    dims, "positional" if dims_pos else "keyword")
             status, val = rigcall(
                 w, (self.mcmod.SpiNNakerBootError, self.scp.TimeoutError) +
                 self.send_exc(),
-                mc.boot, only_if_needed=only, check_booted=check, **kwargs)
+                mc.boot, *dims_pos, only_if_needed=only, check_booted=check,
+                **dict(kwargs, **dims_kw))
             lossy = self.policy.active and self.policy.rate("req_loss") > 0
             if self.send_failed(status, val, "MachineController.boot"):
                 return
